@@ -52,11 +52,11 @@ def replay_states(ctx, states):
                 want = math.sqrt(rf(obs['ket']['c2'])) * np.array(obs['ket']['g'], dtype=float)
                 got, dm = call_ket(c)
                 ctx.evaluations += 1
-                if got.shape != want.shape or np.abs(got - want).max() > TOL:
+                if got.shape != want.shape or core.gt(np.abs(got - want).max(), TOL):
                     ctx.violation('C18:%s:ket' % f, '%s: returned ket differs from the textbook state' % f, data)
                 if dm is not None:
                     wd = rmat(obs['dm'])
-                    if dm.shape != wd.shape or np.abs(dm - wd).max() > TOL:
+                    if dm.shape != wd.shape or core.gt(np.abs(dm - wd).max(), TOL):
                         ctx.violation('C18:%s:return_dm' % f, '%s(return_dm=True) is not the projector of the ket returned without it' % f, data)
             else:
                 want = rmat(obs['dm'])
@@ -64,7 +64,7 @@ def replay_states(ctx, states):
                 ctx.evaluations += 1
                 if got.shape != want.shape:
                     ctx.violation('C18:%s:shape' % f, '%s: documented shape %s, got %s' % (f, want.shape, got.shape), data)
-                elif np.abs(got - want).max() > TOL:
+                elif core.gt(np.abs(got - want).max(), TOL):
                     tr = float(np.trace(got).real)
                     ctx.violation('C18:%s:matrix' % f, '%s: returned matrix differs from the textbook state (trace %.6g)' % (f, tr), dict(data, trace=tr))
         except Exception as ex:
@@ -137,7 +137,7 @@ def upb_events(ctx):
             V = np.array([[complex(z[0], z[1]) for z in g] for g in p['g']]) / np.sqrt(np.array(p['c']))[:, None]
             prod = (prod[:, :, None] * V[:, None, :]).reshape(n, -1)
         want = (np.eye(D) - prod.T @ prod.conj()) / (D - n)
-        if bes.shape != want.shape or np.abs(bes - want).max() > 1e-10:
+        if bes.shape != want.shape or core.gt(np.abs(bes - want).max(), 1e-10):
             ctx.violation('C18:load_upb:bes:%s' % kind, 'returned BES is not the normalised complementary projector of the UPB', dict(kind=kind, args=args))
         rank = int(np.linalg.matrix_rank(bes, tol=1e-8))
         ev.append(dict(op='upb', kind=kind, size=n, dim=D, rank=rank, parties=parties))
@@ -190,7 +190,7 @@ def run_povm(ctx):
                 want = [np.kron(a, b) for a in want for b in E1]
             if got.shape != (4 ** nq, 2 ** nq, 2 ** nq) or max(np.abs(g - w).max() for g, w in zip(got, want)) > 1e-12:
                 ctx.violation('C18:get_tetrahedron_POVM:tensor-order', '%d-qubit elements are not the ordered tensor products of the single-qubit elements' % nq, dict(num_qubit=nq))
-            if np.abs(got.sum(axis=0) - np.eye(2 ** nq)).max() > 1e-12:
+            if core.gt(np.abs(got.sum(axis=0) - np.eye(2 ** nq)).max(), 1e-12):
                 ctx.violation('C18:get_tetrahedron_POVM:resolution', 'elements do not resolve the identity', dict(num_qubit=nq))
     except Exception as ex:
         ctx.violation('C18:exception:get_tetrahedron_POVM', type(ex).__name__ + ': ' + str(ex)[:160], None)
